@@ -1192,11 +1192,16 @@ def unit_dateprecision(inj, scratch):
     s = src('src/util/datetime.rs', scratch)
     it = s.fn('parse_datetime')
     span = s.body_span(it)
-    m1 = s.find_one(r'let\s+hour_start\s*:\s*u32\s*;', span, what='parse_datetime: let hour_start: u32;')
+    m0 = s.find_one(r'let\s+day\s*:\s*u32\s*=[^;]*;', span, what='parse_datetime: let day: u32 = ..;')
     m2 = s.find_one(r'match\s+Local\.with_ymd_and_hms\(', span, what='parse_datetime: match Local.with_ymd_and_hms(')
-    if not m1.start() < m2.start():
+    if not m0.end() < m2.start():
         raise AnchorLost('parse_datetime: time-of-day block is not in front of the calendar conversion')
-    t = dedent(s.text[m1.start():m2.start()].rstrip())
+
+    class _M:
+        def start(self_inner):
+            return m0.end()
+    m1 = _M()
+    t = dedent(s.text[m1.start():m2.start()].strip())
     if re.search(r'\b(year|month|day|Local|date)\b', s.mask[m1.start():m2.start()]):
         raise AnchorLost('parse_datetime: time-of-day block mentions the calendar date')
     # which variables feed start / finish: with_hour(hour_start) .. with_second(sec_finish)
@@ -1222,7 +1227,7 @@ pub fn frag_time_of_day(cap: &SCap, s: &str) -> Result<(u32, u32, u32, u32, u32,
 }}
 '''
     inj.new_file(FRAG_FILE, text)
-    r, d = frag_record('frag_time_of_day', 'src/util/datetime.rs', 'fn parse_datetime / statements from `let hour_start: u32;` up to `match Local.with_ymd_and_hms(..)` (verbatim); the use of the six variables in with_hour/with_minute/with_second is checked by shape',
+    r, d = frag_record('frag_time_of_day', 'src/util/datetime.rs', 'fn parse_datetime / all statements between `let day: u32 = ..;` and `match Local.with_ymd_and_hms(..)` (verbatim); the use of the six variables in with_hour/with_minute/with_second is checked by shape',
                        t, t, ['regex Captures -> shim whose groups 6,7,8 are absent or spell a number (str::parse on them succeeds: the regex only captures digits)'],
                        'DATE_REGEX matching, year/month/day, chrono calendar conversion, today/yesterday/offset literals')
     return dict(functions=[r], dropped=[d],
